@@ -407,6 +407,16 @@ func (c *Case) inGroup(m *Member) bool {
 	return true
 }
 
+// a member holds the captured output iff neither it nor an ancestor was started with the output redirected
+func (c *Case) holdsPipe(m *Member) bool {
+	for x := m; x != nil; x = c.member(x.Parent) {
+		if !x.Pipe {
+			return false
+		}
+	}
+	return true
+}
+
 // effective set of signals that do not terminate member m (what the model is told)
 func (c *Case) ignores(m *Member) []int {
 	set := map[int]bool{}
@@ -990,7 +1000,7 @@ func caseCoq(c *Case) string {
 			ign = append(ign, coqfmt.Z(int64(s)))
 		}
 		tree = append(tree, fmt.Sprintf("mkMember %s %s %s %s %s true", coqfmt.N(uint64(m.ID)), coqfmt.Bool(m.Parent == 0),
-			coqfmt.Bool(c.inGroup(m)), coqfmt.List(ign), coqfmt.Bool(m.Pipe)))
+			coqfmt.Bool(c.inGroup(m)), coqfmt.List(ign), coqfmt.Bool(c.holdsPipe(m))))
 		if m.Record {
 			recs = append(recs, coqfmt.N(uint64(m.ID)))
 		}
